@@ -1,10 +1,175 @@
 import CueVerif.Driver.Proto
-namespace CueVerif.Driver.C05
-open CueVerif CueVerif.Driver
+import CueVerif.Spec.Closed
+/-!
+Protocol handler for C05.  Expressions travel as one space-free word:
 
-/-- protocol handler for C05: words of one op line (after the property id) → answer -/
+  T `_`   B `_|_`   I int   S string   i<n> int literal   s<n> string literal
+  {d,d,…}  struct literal; d ::= `...` | `[pat]:e` | `label:e` | `label?:e` | `label!:e` | e (embedding)
+           pat ::= `*` ([string]) | `^xyz` (=~"^xyz") | `xyz$` (=~"xyz$") | `!xyz` (!="xyz")
+           label ::= name | _name (hidden) | #name (definition)
+  c(e) close(e)     d(e) reference to a definition whose body is e     &(e,e,…) conjunction
+
+Ops:
+  val <schema> <data>          model: unify + validate → `ok <field set>` | `err`
+  adm <schema> <data>          spec checker `admits` → `ok` | `err`
+  allows <schema> <data> <label>   model: may `label` be added to schema & data (`T` = no data)
+-/
+namespace CueVerif.Driver.C05
+open CueVerif CueVerif.Driver CueVerif.Closed
+
+def isIdent (c : Char) : Bool := c.isAlphanum || c == '_' || c == '#'
+
+def mkLabel (cs : List Char) : Label :=
+  match cs with
+  | '#' :: r => ⟨.dfn, r.map (·.toNat)⟩
+  | '_' :: '#' :: r => ⟨.dfn, ('_' :: r).map (·.toNat)⟩
+  | '_' :: r => ⟨.hid, r.map (·.toNat)⟩
+  | r => ⟨.reg, r.map (·.toNat)⟩
+
+def labelStr (l : Label) : String :=
+  let n := String.ofList (l.name.map Char.ofNat)
+  match l.cls with
+  | .reg => n
+  | .hid => "_" ++ n
+  | .dfn => "#" ++ n
+
+def mkPat (cs : List Char) : Option Pat :=
+  match cs with
+  | ['*'] => some .any
+  | '^' :: r => some (.pre (r.map (·.toNat)))
+  | '!' :: r => some (.ne (r.map (·.toNat)))
+  | r => match r.reverse with
+    | '$' :: q => some (.suf (q.reverse.map (·.toNat)))
+    | _ => none
+
+def andAll : List Expr → Expr
+  | [] => .top
+  | [e] => e
+  | e :: es => .and e (andAll es)
+
+mutual
+partial def pExpr (cs : List Char) : Option (Expr × List Char) :=
+  match cs with
+  | 'T' :: r => some (.top, r)
+  | 'B' :: r => some (.bot, r)
+  | 'I' :: r => some (.sc .int, r)
+  | 'S' :: r => some (.sc .str, r)
+  | 'i' :: r =>
+    let ds := r.takeWhile Char.isDigit
+    (String.ofList ds).toNat?.map fun n => (.sc (.i n), r.dropWhile Char.isDigit)
+  | 's' :: r =>
+    let ds := r.takeWhile Char.isDigit
+    (String.ofList ds).toNat?.map fun n => (.sc (.s n), r.dropWhile Char.isDigit)
+  | '{' :: '}' :: r => some (.nil, r)
+  | '{' :: r => pDecls r
+  | 'c' :: '(' :: r => do
+    let (e, r) ← pExpr r
+    match r with
+    | ')' :: r => some (.close e, r)
+    | _ => none
+  | 'd' :: '(' :: r => do
+    let (e, r) ← pExpr r
+    match r with
+    | ')' :: r => some (.defn e, r)
+    | _ => none
+  | '&' :: '(' :: r => do
+    let (es, r) ← pList r
+    some (andAll es, r)
+  | _ => none
+/-- comma separated expressions up to `)` -/
+partial def pList (cs : List Char) : Option (List Expr × List Char) := do
+  let (e, r) ← pExpr cs
+  match r with
+  | ',' :: r => do
+    let (es, r) ← pList r
+    some (e :: es, r)
+  | ')' :: r => some ([e], r)
+  | _ => none
+/-- declarations up to `}`; returns the spine -/
+partial def pDecls (cs : List Char) : Option (Expr × List Char) := do
+  let next (k : Expr → Expr) (r : List Char) : Option (Expr × List Char) :=
+    match r with
+    | ',' :: r => do
+      let (rest, r) ← pDecls r
+      some (k rest, r)
+    | '}' :: r => some (k .nil, r)
+    | _ => none
+  match cs with
+  | '.' :: '.' :: '.' :: r => next .ell r
+  | '[' :: r =>
+    let ps := r.takeWhile (· != ']')
+    match r.dropWhile (· != ']') with
+    | ']' :: ':' :: r => do
+      let p ← mkPat ps
+      let (v, r) ← pExpr r
+      next (.pat p v) r
+    | _ => none
+  | _ =>
+    let id := cs.takeWhile isIdent
+    let r := cs.dropWhile isIdent
+    match id, r with
+    | _ :: _, '?' :: ':' :: r => do
+      let (v, r) ← pExpr r
+      next (.field (mkLabel id) .optional v) r
+    | _ :: _, '!' :: ':' :: r => do
+      let (v, r) ← pExpr r
+      next (.field (mkLabel id) .required v) r
+    | _ :: _, ':' :: r => do
+      let (v, r) ← pExpr r
+      next (.field (mkLabel id) .member v) r
+    | _, _ => do
+      let (e, r) ← pExpr cs
+      next (.emb e) r
+end
+
+def parseExpr (s : String) : Option Expr :=
+  match pExpr s.toList with
+  | some (e, []) => some e
+  | _ => none
+
+/-- data words use the same syntax (regular fields and literals only) -/
+def toData : Expr → Option Data
+  | .sc s => some (.atom s)
+  | .nil => some .nil
+  | .field l .member v rest => do
+    let dv ← toData v
+    let dr ← toData rest
+    some (.cons l dv dr)
+  | _ => none
+
+def insertStr (x : String) : List String → List String
+  | [] => [x]
+  | y :: ys => if x ≤ y then x :: y :: ys else y :: insertStr x ys
+
+partial def showFields (v : Val) : String :=
+  match v with
+  | .st labels kind val _ _ _ _ =>
+    let ls := labels.eraseDups
+    let items := ls.filterMap fun l =>
+      match kind l with
+      | none => none
+      | some .optional => some (labelStr l ++ "?")
+      | some .required => some (labelStr l ++ "!")
+      | some .member => some (labelStr l ++ showFields (val l))
+    "{" ++ ",".intercalate (items.foldr insertStr []) ++ "}"
+  | _ => ""
+
 def handle (ws : List String) : String :=
   match ws with
+  | ["val", s, d] =>
+    match parseExpr s, parseExpr d with
+    | some se, some de =>
+      let v := unify (ev se) (ev de)
+      if validate true v then "ok " ++ showFields v else "err"
+    | _, _ => "bad-op"
+  | ["adm", s, d] =>
+    match parseExpr s, (parseExpr d).bind toData with
+    | some se, some dd => if admits se dd then "ok" else "err"
+    | _, _ => "bad-op"
+  | ["allows", s, d, l] =>
+    match parseExpr s, parseExpr d with
+    | some se, some de => boolStr ((unify (ev se) (ev de)).allows (mkLabel l.toList))
+    | _, _ => "bad-op"
   | _ => "bad-op"
 
 end CueVerif.Driver.C05
